@@ -742,6 +742,7 @@ func opVJSONSchema(c Obj) J {
 		}
 	}
 	spell := []any{}
+	escDiffers := []any{}
 	for _, sp := range spellings {
 		var w bytes.Buffer
 		fromTJSON(sp.doc, &w)
@@ -768,9 +769,26 @@ func opVJSONSchema(c Obj) J {
 				names = append(names, r.(Obj)["v"])
 			}
 		}
+		// the byte-level respelling of the same document (strings and keys \u-escaped, white space between tokens) must
+		// get the same answer from the schema-guided decoder: compared through the library's own encoding
+		answer := func(b []byte) string {
+			return guardS(func() string {
+				var e exptypes.Entity
+				if err := e.UnmarshalJSONWithSchema(b, rs); err != nil {
+					return "rejected"
+				}
+				re, _ := json.Marshal(types.Entity(e))
+				return "ok " + string(re)
+			})
+		}
+		var esc bytes.Buffer
+		writeEscaped(sp.doc, &esc)
+		if answer(raw) != answer(esc.Bytes()) {
+			escDiffers = append(escDiffers, sp.name)
+		}
 		spell = append(spell, Obj{"name": sp.name, "doc": sp.doc, "backs": []any{one, many}})
 	}
-	return Obj{"spell": spell, "names": jsonNameTable(names...)}
+	return Obj{"spell": spell, "escdiffers": escDiffers, "names": jsonNameTable(names...)}
 }
 
 // driver "vjsonschema": entities of every type of coerceSchema, optional members present and absent
